@@ -12,7 +12,8 @@ for f in ("patch.diff", "demo.py", "README.md"):
         shutil.copy(os.path.join(src, f), os.path.join(dst, f))
 out = subprocess.run([os.path.join(here, "tools", "eval_mutant.sh"), os.path.join(dst, "patch.diff"), os.path.join(dst, "demo.py"), checks, "quick"],
                      capture_output=True, text=True).stdout
-meta = {"id": sid, "breaks_property": prop, "source": "independent sub-agent given only the property text and a scratch worktree" if "revert" not in sid else "revert of a fix: commit in /repo (the original defect)",
+base = subprocess.run(["git", "-C", "/repo", "log", "-1", "--format=%h"], capture_output=True, text=True).stdout.strip()
+meta = {"id": sid, "base_commit": base, "breaks_property": prop, "source": "independent sub-agent given only the property text and a scratch worktree" if "revert" not in sid else "revert of a fix: commit in /repo (the original defect)",
         "needs_to_manifest": "", "ran": "tools/eval_mutant.sh seeded/%s/patch.diff seeded/%s/demo.py %s quick  (scratch git worktree of /repo HEAD, patch applied there, VERIF_REPO pointed at it; worktree removed afterwards)" % (sid, sid, checks),
         "confirmed": {}, "checks": {}}
 readme = os.path.join(dst, "README.md")
